@@ -39,6 +39,9 @@ func (c *Ctx) Sim(name string, op Op, env *Env) *Outcome {
 	if out.Tampered != "" {
 		c.Failf(c.Prop+":callers-slice-modified:"+op.Kind, "%s: %s", op, out.Tampered)
 	}
+	if out.ReaderClosed > 0 {
+		c.Failf(c.Prop+":callers-reader-closed:"+op.Kind, "%s: the library called Close on the caller's reader (%d times); the reader is the caller's to close", op, out.ReaderClosed)
+	}
 	if out.BubbleErr != "" && env.Ctx.Mode == "own" && !out.Hang && len(out.Leaks) == 0 && len(out.Panics) == 0 {
 		// every task of the simulator has finished and yet goroutines of the bubble remain:
 		// started by code the instrumenter does not see (package context watching the caller's
@@ -61,6 +64,9 @@ func (c *Ctx) Direct(op Op, env *Env) *Outcome {
 	c.countFaults(out)
 	if out.Tampered != "" {
 		c.Failf(c.Prop+":callers-slice-modified:"+op.Kind, "%s: %s", op, out.Tampered)
+	}
+	if out.ReaderClosed > 0 {
+		c.Failf(c.Prop+":callers-reader-closed:"+op.Kind, "%s: the library called Close on the caller's reader (%d times); the reader is the caller's to close", op, out.ReaderClosed)
 	}
 	return out
 }
